@@ -11,9 +11,11 @@
           a loaded value of `cur` that is larger than the current `cur`.
           This merges clauses (A) and (B) of Proofs/SigLemmas.lean: with several event loops the
           clause "dph d = sawCur c → c ≤ cur ∨ token ∨ owed notify ∨ another loop will evaluate" is
-          NOT inductive on its own (the other loop may leave because the worker is not running any
-          more, and a notify() may be swallowed by the nil channel while the worker is stopped), but
-          it is only ever needed in dispatchable states, and there (W) provides it.
+          is FALSE in some reachable states (the other loop may leave because the worker is not
+          running any more, and a notify() may be swallowed by the nil channel while the worker is
+          stopped: `exStaleSwallowed` in Proofs/Sig2.lean), but it is only ever needed in dispatchable
+          states, and there (W) provides it (`stale_cur_covered`).
+    (D)   (`InvD`, separate) an event loop that has not ended is in `ds` and its channel was made.
   `Ghost` links the ghost fields `owes` and `nOwes` as in SigLemmas.
 -/
 import VarmqVerif.Model.Sig2
@@ -44,8 +46,10 @@ def InvL (s : State) : Prop := s.ws = running → Listening s
 
 /-- the event loop `d` will evaluate the loop condition again, and the part of it that it has
     evaluated already is not stale in the dangerous direction: a loaded `cur` is not above `cur` -/
-def Good (s : State) (d : Nat) : Prop :=
-  (s.dph d).willEval = true ∧ ∀ c, s.dph d = .sawCur c → c ≤ s.cur
+def GoodP (ph : DPh) (cur : Nat) : Prop :=
+  ph.willEval = true ∧ ∀ c, ph = .sawCur c → c ≤ cur
+
+def Good (s : State) (d : Nat) : Prop := GoodP (s.dph d) s.cur
 
 def InvW (s : State) : Prop :=
   Dispatchable s → TokCur s ∨ 0 < s.nOwes ∨ ∃ d, Good s d
@@ -73,13 +77,266 @@ macro "step_cases" h:ident : tactic =>
 theorem invCh_step {s s' : State} {e : Ev} (hi : InvCh s) (h : step s e = .ok s') : InvCh s' := by
   obtain ⟨h1, h2⟩ := hi
   unfold InvCh
-  cases e <;> step_cases h <;> simp only [owe] <;> grind [upd]
+  cases e <;> step_cases h <;> (try simp only [owe]) <;> grind [upd]
 
 /-! ### (L) -/
 
 theorem liveOn_iff (s : State) (ch : Nat) :
     liveOn s ch = true ↔ ∃ d ∈ s.ds, s.dph d ≠ .none ∧ s.dch d = ch := by
   simp [liveOn, List.any_eq_true]
+
+theorem invL_step {s s' : State} {e : Ev} (hc : InvCh s) (hi : InvL s) (h : step s e = .ok s') : InvL s' := by
+  obtain ⟨h1, h2⟩ := hc
+  unfold InvL Listening at hi
+  unfold InvL Listening
+  cases e with
+  | stStatus g v =>
+    step_cases h
+    · rename_i ch hch hl
+      have hl' : liveOn s ch = true := by simpa using hl
+      rw [liveOn_iff] at hl'
+      intro _
+      exact ⟨ch, hch, (h1 ch hch).1, hl'⟩
+    · grind
+  | _ => step_cases h <;> (try simp only [owe]) <;> grind [upd, isD]
+
+/-! ### (W) -/
+
+/-- updating the phase of one event loop keeps a good event loop, if the new phase is good or the
+    updated loop was not -/
+theorem exists_good_upd (f : Nat → DPh) (cur d : Nat) (x : DPh) (h : ∃ d', GoodP (f d') cur)
+    (hx : GoodP x cur ∨ ¬ GoodP (f d) cur) : ∃ d', GoodP (upd f d x d') cur := by
+  rcases hx with hx | hx
+  · exact ⟨d, by simpa using hx⟩
+  · obtain ⟨d', hd'⟩ := h
+    have hne : d' ≠ d := fun he => hx (he ▸ hd')
+    exact ⟨d', by simpa [upd_other _ _ _ _ hne] using hd'⟩
+
+/-- (W) is kept by an event that only changes the phase of one event loop `d` (and possibly the
+    tokens, the list of event loops, the channel an event loop listens on), if
+    * in a dispatchable state the new phase is good, or the old one was not, and
+    * a token on the current channel stays, or the new phase is good -/
+theorem invW_upd {s s' : State} (hi : InvW s) (d : Nat) (x : DPh)
+    (hws : s'.ws = s.ws) (hcur : s'.cur = s.cur) (hconc : s'.conc = s.conc) (hq : s'.qlen = s.qlen)
+    (hn : s'.nOwes = s.nOwes) (hdph : s'.dph = upd s.dph d x)
+    (hx : Dispatchable s → GoodP x s.cur ∨ ¬ GoodP (s.dph d) s.cur)
+    (ht : TokCur s → TokCur s' ∨ GoodP x s.cur) : InvW s' := by
+  intro hd'
+  have hd : Dispatchable s := by
+    unfold Dispatchable at hd' ⊢
+    rw [hws, hcur, hconc, hq] at hd'
+    exact hd'
+  have hgood : GoodP x s.cur → ∃ d', Good s' d' := fun hg => ⟨d, by
+    unfold Good
+    rw [hdph, hcur, upd_same]
+    exact hg⟩
+  rcases hi hd with h | h | h
+  · rcases ht h with h | h
+    · exact .inl h
+    · exact .inr (.inr (hgood h))
+  · exact .inr (.inl (by omega))
+  · obtain ⟨d', hd'⟩ := exists_good_upd s.dph s.cur d x h (hx hd)
+    exact .inr (.inr ⟨d', by unfold Good; rw [hdph, hcur]; exact hd'⟩)
+
+theorem invW_step {s s' : State} {e : Ev} (hl : InvL s) (hi : InvW s) (h : step s e = .ok s') : InvW s' := by
+  have hl' : s.ws = running → ∃ ch, s.chan = some ch := fun hw => by
+    obtain ⟨ch, hch, _⟩ := hl hw
+    exact ⟨ch, hch⟩
+  clear hl
+  cases e with
+  | makeSig g ch =>
+    unfold InvW Dispatchable TokCur Good at hi
+    unfold InvW Dispatchable TokCur Good
+    step_cases h <;> grind [upd, isD, GoodP, DPh.willEval]
+  | closeSig g =>
+    unfold InvW Dispatchable TokCur Good at hi
+    unfold InvW Dispatchable TokCur Good
+    step_cases h <;> grind [upd, isD, GoodP, DPh.willEval]
+  | spawnD g d =>
+    step_cases h <;> refine invW_upd hi d _ rfl rfl rfl rfl rfl rfl ?_ ?_ <;> grind [Dispatchable, TokCur, upd, isD, GoodP, DPh.willEval]
+  | recvTok d =>
+    step_cases h <;> refine invW_upd hi d _ rfl rfl rfl rfl rfl rfl ?_ ?_ <;> grind [Dispatchable, TokCur, upd, isD, GoodP, DPh.willEval]
+  | recvClosed d =>
+    step_cases h <;> refine invW_upd hi d _ rfl rfl rfl rfl rfl rfl ?_ ?_ <;> grind [Dispatchable, TokCur, upd, isD, GoodP, DPh.willEval]
+  | dStatus d v =>
+    step_cases h <;> refine invW_upd hi d _ rfl rfl rfl rfl rfl rfl ?_ ?_ <;> grind [Dispatchable, TokCur, upd, isD, GoodP, DPh.willEval]
+  | dCur d v =>
+    step_cases h <;> refine invW_upd hi d _ rfl rfl rfl rfl rfl rfl ?_ ?_ <;> grind [Dispatchable, TokCur, upd, isD, GoodP, DPh.willEval]
+  | dConc d v =>
+    step_cases h <;> refine invW_upd hi d _ rfl rfl rfl rfl rfl rfl ?_ ?_ <;> grind [Dispatchable, TokCur, upd, isD, GoodP, DPh.willEval]
+  | dLen d n =>
+    step_cases h <;> refine invW_upd hi d _ rfl rfl rfl rfl rfl rfl ?_ ?_ <;> grind [Dispatchable, TokCur, upd, isD, GoodP, DPh.willEval]
+  | dCasOk d =>
+    unfold InvW Dispatchable TokCur Good at hi
+    unfold InvW Dispatchable TokCur Good
+    step_cases h <;> grind [upd, isD, GoodP, DPh.willEval]
+  | dDeq d =>
+    unfold InvW Dispatchable TokCur Good at hi
+    unfold InvW Dispatchable TokCur Good
+    step_cases h <;> grind [upd, isD, GoodP, DPh.willEval]
+  | dRel d res =>
+    unfold InvW Dispatchable TokCur Good at hi
+    unfold InvW Dispatchable TokCur Good
+    step_cases h <;> grind [upd, isD, GoodP, DPh.willEval]
+  | enq g =>
+    unfold InvW Dispatchable TokCur Good at hi
+    unfold InvW Dispatchable TokCur Good
+    step_cases h <;> (try simp only [owe]) <;> grind [upd, isD, GoodP, DPh.willEval]
+  | deqX g =>
+    unfold InvW Dispatchable TokCur Good at hi
+    unfold InvW Dispatchable TokCur Good
+    step_cases h <;> grind [upd, isD, GoodP, DPh.willEval]
+  | relX g res =>
+    unfold InvW Dispatchable TokCur Good at hi
+    unfold InvW Dispatchable TokCur Good
+    step_cases h <;> (try simp only [owe]) <;> grind [upd, isD, GoodP, DPh.willEval]
+  | stStatus g v =>
+    unfold InvW Dispatchable TokCur Good at hi
+    unfold InvW Dispatchable TokCur Good
+    step_cases h <;> (try simp only [owe]) <;> grind [upd, isD, GoodP, DPh.willEval]
+  | stConc g v =>
+    unfold InvW Dispatchable TokCur Good at hi
+    unfold InvW Dispatchable TokCur Good
+    step_cases h <;> (try simp only [owe]) <;> grind [upd, isD, GoodP, DPh.willEval]
+  | notify g sent =>
+    unfold InvW Dispatchable TokCur Good at hi
+    unfold InvW Dispatchable TokCur Good
+    step_cases h <;> grind [upd, isD, GoodP, DPh.willEval]
+
+theorem inv_step {s s' : State} {e : Ev} (hi : Inv s) (h : step s e = .ok s') : Inv s' :=
+  ⟨invCh_step hi.1 h, invL_step hi.1 hi.2.1 h, invW_step hi.2.1 hi.2.2 h⟩
+
+theorem reach_inv {s : State} (hr : Reach s) : Inv s := by
+  induction hr with
+  | init c => exact inv_init c
+  | step e _ h ih => exact inv_step ih h
+
+/-! ### Event loops are registered and listen on a channel that was made -/
+
+def InvD (s : State) : Prop := ∀ d, s.dph d ≠ .none → d ∈ s.ds ∧ s.made (s.dch d) = true
+
+theorem invD_step {s s' : State} {e : Ev} (hc : InvCh s) (hi : InvD s) (h : step s e = .ok s') : InvD s' := by
+  obtain ⟨h1, h2⟩ := hc
+  unfold InvD at hi ⊢
+  cases e <;> step_cases h <;> (try simp only [owe]) <;> grind [upd, isD]
+
+theorem reach_invD {s : State} (hr : Reach s) : InvD s := by
+  induction hr with
+  | init c => intro d h; simp [init] at h
+  | step e hr h ih => exact invD_step (reach_inv hr).1 ih h
+
+/-! ## The ghost counters -/
+
+theorem sum_map_upd_not_mem (f : Nat → Nat) (g v : Nat) (l : List Nat) (hg : g ∉ l) :
+    (l.map (upd f g v)).sum = (l.map f).sum := by
+  induction l with
+  | nil => rfl
+  | cons a t ih =>
+    simp only [List.mem_cons, not_or] at hg
+    have ha : a ≠ g := fun h => hg.1 h.symm
+    simp [List.map_cons, List.sum_cons, ih hg.2, upd, ha]
+
+theorem sum_map_upd_mem (f : Nat → Nat) (g v : Nat) (l : List Nat) (hn : l.Nodup) (hg : g ∈ l) :
+    (l.map (upd f g v)).sum + f g = (l.map f).sum + v := by
+  induction l with
+  | nil => cases hg
+  | cons a t ih =>
+    rw [List.nodup_cons] at hn
+    by_cases ha : a = g
+    · subst ha
+      simp only [List.map_cons, List.sum_cons, upd_same, sum_map_upd_not_mem f a v t hn.1]
+      omega
+    · have hgt : g ∈ t := by
+        rcases List.mem_cons.mp hg with h | h
+        · exact absurd h.symm ha
+        · exact h
+      have := ih hn.2 hgt
+      simp only [List.map_cons, List.sum_cons, upd_other f g a v ha]
+      omega
+
+/-- `nOwes` is the sum of `owes` over a finite duplicate-free list outside of which `owes` is 0 -/
+def Ghost (s : State) : Prop :=
+  ∃ l : List Nat, l.Nodup ∧ (∀ g, g ∉ l → s.owes g = 0) ∧ (l.map s.owes).sum = s.nOwes
+
+theorem ghost_init (c : Nat) : Ghost (init c) := ⟨[], by simp, by simp [init], by simp [init]⟩
+
+theorem ghost_owe {s : State} (g : Nat) (hs : Ghost s) : Ghost (owe s g) := by
+  obtain ⟨l, hn, h0, hsum⟩ := hs
+  by_cases hg : g ∈ l
+  · refine ⟨l, hn, ?_, ?_⟩
+    · intro x hx
+      have hxg : x ≠ g := fun h => hx (h ▸ hg)
+      simp [owe, upd, hxg, h0 x hx]
+    · have := sum_map_upd_mem s.owes g (s.owes g + 1) l hn hg
+      simp only [owe]
+      omega
+  · refine ⟨g :: l, List.nodup_cons.mpr ⟨hg, hn⟩, ?_, ?_⟩
+    · intro x hx
+      simp only [List.mem_cons, not_or] at hx
+      simp [owe, upd, hx.1, h0 x hx.2]
+    · have := sum_map_upd_not_mem s.owes g (s.owes g + 1) l hg
+      have hz := h0 g hg
+      simp only [owe, List.map_cons, List.sum_cons, upd_same]
+      omega
+
+/-- paying one owed call -/
+theorem ghost_pay {s t : State} (g : Nat) (hg0 : s.owes g ≠ 0)
+    (ho : t.owes = upd s.owes g (s.owes g - 1)) (hn' : t.nOwes = s.nOwes - 1) (hs : Ghost s) : Ghost t := by
+  obtain ⟨l, hn, h0, hsum⟩ := hs
+  have hg : g ∈ l := by
+    apply Classical.byContradiction
+    intro hg
+    exact hg0 (h0 g hg)
+  refine ⟨l, hn, ?_, ?_⟩
+  · intro x hx
+    have hxg : x ≠ g := fun h => hx (h ▸ hg)
+    rw [ho]
+    simp [upd, hxg, h0 x hx]
+  · have := sum_map_upd_mem s.owes g (s.owes g - 1) l hn hg
+    rw [ho, hn']
+    omega
+
+/-- the ghost fields do not depend on the other fields -/
+theorem ghost_congr {s t : State} (ho : t.owes = s.owes) (hn : t.nOwes = s.nOwes) (hs : Ghost s) : Ghost t := by
+  unfold Ghost at *
+  rw [ho, hn]
+  exact hs
+
+theorem ghost_step {s s' : State} {e : Ev} (hs : Ghost s) (h : step s e = .ok s') : Ghost s' := by
+  cases e with
+  | enq g => step_cases h; exact ghost_owe g (ghost_congr (s := s) rfl rfl hs)
+  | relX g res => step_cases h; exact ghost_owe g (ghost_congr (s := s) rfl rfl hs)
+  | stStatus g v =>
+    step_cases h
+    · exact ghost_owe g (ghost_congr (s := s) rfl rfl hs)
+    · exact ghost_congr rfl rfl hs
+  | stConc g v =>
+    step_cases h
+    · exact ghost_owe g (ghost_congr (s := s) rfl rfl hs)
+    · exact ghost_congr rfl rfl hs
+  | notify g sent =>
+    step_cases h
+    · exact ghost_congr rfl rfl hs
+    · rename_i h2 _
+      exact ghost_pay g (by simpa using h2) rfl rfl hs
+    · exact hs
+    · rename_i h2 _
+      exact ghost_pay g (by simpa using h2) rfl rfl hs
+  | _ => step_cases h <;> exact ghost_congr rfl rfl hs
+
+theorem reach_ghost {s : State} (hr : Reach s) : Ghost s := by
+  induction hr with
+  | init c => exact ghost_init c
+  | step e _ h ih => exact ghost_step ih h
+
+theorem le_sum_of_mem (f : Nat → Nat) (g : Nat) (l : List Nat) (hg : g ∈ l) : f g ≤ (l.map f).sum := by
+  induction l with
+  | nil => cases hg
+  | cons a t ih =>
+    simp only [List.map_cons, List.sum_cons]
+    rcases List.mem_cons.mp hg with h | h
+    · subst h; omega
+    · have := ih h; omega
 
 end Sig2
 end VarmqVerif
